@@ -90,8 +90,11 @@ class Pairing:
             if not self.is_int_like(idx):
                 s = self.sig(idx, at)
                 return {s} if s is not None else None
+            # a basic-index view of something (ys[:, newaxis]) keeps the rows of its base
+            if isinstance(idx, ast.Slice) and depth < 8:
+                return self.gather_sigs(e.value, at, depth + 1)
             return None
-        if isinstance(e, ast.Name) and depth < 3:
+        if isinstance(e, ast.Name) and depth < 8:
             node = self.rd.node_of(at)
             if node is None:
                 return None
